@@ -506,6 +506,10 @@ async fn sender_task(w: Rc<World>, sidx: usize, sink: v3::MqttSink, ops: Vec<App
                         OpResult::Cancelled
                     }
                 }
+            } else if op2 == AppOp::DropRelease {
+                drop(rcpt.release());
+                w.fault(0, "cancel_unpolled", 3);
+                OpResult::Ok(AckInfo { what: "receipt-dropped", pid: pid.unwrap_or(0), code: 0, sig: 0, codes: Vec::new() })
             } else {
                 drop(rcpt);
                 OpResult::Ok(AckInfo { what: "receipt-dropped", pid: pid.unwrap_or(0), code: 0, sig: 0, codes: Vec::new() })
@@ -562,6 +566,10 @@ async fn exec_op(w: &Rc<World>, sidx: usize, opi: usize, op: &AppOp, sink: &v3::
             Ok(()) => OpResult::Ok(AckInfo::none("sent")),
             Err(e) => OpResult::Err(err_str(&e)),
         },
+        AppOp::PubQ0Pid { len, pid } => match sink.publish(topic).packet_id(*pid).send_at_most_once(Bytes::from(make_payload(tag, *len as usize))) {
+            Ok(()) => OpResult::Ok(AckInfo::none("sent")),
+            Err(e) => OpResult::Err(err_str(&e)),
+        },
         AppOp::PubQ1 { len, pid } => {
             let mut b = sink.publish(topic);
             if let Some(p) = pid {
@@ -598,7 +606,7 @@ async fn exec_op(w: &Rc<World>, sidx: usize, opi: usize, op: &AppOp, sink: &v3::
                 Err(e) => OpResult::Err(err_str(&e)),
             }
         }
-        AppOp::PubQ2 { .. } | AppOp::Release | AppOp::DropReceipt | AppOp::Unpolled { .. } => OpResult::Err("no-receipt".into()),
+        AppOp::PubQ2 { .. } | AppOp::Release | AppOp::DropReceipt | AppOp::DropRelease | AppOp::Unpolled { .. } => OpResult::Err("no-receipt".into()),
         AppOp::Subscribe { n, pid } => {
             let mut b = sink.subscribe();
             if let Some(p) = pid {
